@@ -4,6 +4,7 @@ import (
 	"fmt"
 	"math/rand"
 	"os"
+	"strconv"
 
 	txfile "github.com/elastic/go-txfile"
 
@@ -33,6 +34,21 @@ func (o *statObs) OnTxClose(f txfile.FileStats, t txfile.TxStats) {
 	}
 }
 
+// c11Model answers "maxpages": the page count of a bounded file in the Coq model (max_pages_of, theorem
+// max_pages_within_size)
+var c11Model *model.Client
+
+func c11MaxPages(maxSize, ps uint64) uint64 {
+	if c11Model == nil {
+		return maxSize / ps
+	}
+	v, err := strconv.ParseUint(c11Model.Ask(fmt.Sprintf("maxpages %d %d", maxSize, ps)), 10, 64)
+	if err != nil {
+		panic("model: maxpages: " + err.Error())
+	}
+	return v
+}
+
 func c11Check(e *engine.Engine, obs *statObs, probe bool) {
 	if e.Tx != nil || e.File == nil {
 		return
@@ -52,6 +68,10 @@ func c11Check(e *engine.Engine, obs *statObs, probe bool) {
 	}
 	if e.Disk.MaxExtent > int64(s.MaxSize) {
 		e.Fail("the file grew to %d bytes, maximum size is %d", e.Disk.MaxExtent, s.MaxSize)
+	}
+	// "the configured maximum" in pages: the complete pages that fit below the maximum size
+	if ps, ms := uint64(e.File.PageSize()), uint64(s.MaxSize); uint64(s.MaxPages) != c11MaxPages(ms, ps) {
+		e.Fail("max-pages: the allocator counts with %d pages, %d bytes hold %d complete pages of %d bytes (model: max_pages_of)", s.MaxPages, ms, c11MaxPages(ms, ps), ps)
 	}
 	if obs.last.DataAllocated != uint(live) {
 		e.Fail("FileStats.DataAllocated = %d, live pages = %d", obs.last.DataAllocated, live)
@@ -157,6 +177,13 @@ func init() {
 		f := parseFlags("c11", args)
 		rep := newReport("C11", f)
 		rep.Rule = "long alloc/free/overwrite cycle histories (no overflow transactions) on bounded configurations (64-256 pages, meta area 0/1/4/8, prealloc); plus short abort-heavy histories (50% of the transactions end in Rollback/Close); after every commit / rollback / close / reopen: allocatable + live + meta area + 2 == max pages, file extent <= max size, Observer FileStats == (live, meta area, meta in use); every 7th point and at the end a capacity probe (allocate until failure in a rolled-back transaction) must equal the allocatable count. directed: meta-area growth served by a contiguous run of the data free list; the configuration space at creation (explicit / default page size x max size x initial meta area: refused, or within the limit and conserving); K1: allocator scripts (state incl. the per-transaction counters after every operation) vs. the Coq model. Non-trivial: distinct (config, op statistics)."
+		m, err := model.Start()
+		if err != nil {
+			fmt.Fprintln(os.Stderr, err)
+			return 2
+		}
+		defer m.Close()
+		c11Model = m
 		if f.replay != "" {
 			rp, err := loadHistReplay(f.replay)
 			if err != nil {
@@ -178,6 +205,8 @@ func init() {
 			{PageSize: 1024, MaxSize: 64 * 1024}, {PageSize: 1024, MaxSize: 64 * 1024, InitMetaArea: 4},
 			{PageSize: 1024, MaxSize: 128 * 1024, InitMetaArea: 8}, {PageSize: 1024, MaxSize: 256 * 1024, InitMetaArea: 1},
 			{PageSize: 1024, MaxSize: 96 * 1024, Prealloc: true}, {PageSize: 4096, MaxSize: 256 * 1024, InitMetaArea: 2},
+			// a maximum size that is no multiple of the page size: the last, incomplete page is not available
+			{PageSize: 1024, MaxSize: 64*1024 + 512}, {PageSize: 1024, MaxSize: 100000, InitMetaArea: 2}, {PageSize: 4096, MaxSize: 256*1024 + 4095},
 		}
 		for i := 0; i < n; i++ {
 			if rep.outOfTime() {
@@ -251,9 +280,11 @@ func init() {
 				eff = uint64(os.Getpagesize())
 			}
 			for _, mp := range []uint64{16, 20, 64, 66, 100} {
-				for _, meta := range []uint32{0, 1, 4, 14, 18, 62, 64, 98, 200} {
+				for mi, meta := range []uint32{0, 1, 4, 14, 18, 62, 64, 98, 200} {
 					d := simdisk.New("cfg")
-					fl, err := txfile.VerifOpen(d, txfile.Options{PageSize: ps, MaxSize: mp * eff, InitMetaArea: meta})
+					// (every other configuration with a maximum size that ends inside a page)
+					extra := []uint64{0, 1, eff / 2, eff - 1}[(mi+int(mp))%4]
+					fl, err := txfile.VerifOpen(d, txfile.Options{PageSize: ps, MaxSize: mp*eff + extra, InitMetaArea: meta})
 					rep.Evaluations++
 					rep.count(fmt.Sprintf("part4:create:ok=%v", err == nil), 1)
 					if err != nil {
@@ -269,6 +300,10 @@ func init() {
 						avail += uint64(sn.MaxPages) - sn.DataEnd
 					}
 					switch {
+					case uint64(sn.MaxPages) != c11MaxPages(mp*eff+extra, eff):
+						rep.violate(Violation{Kind: "oracle", Sig: "create/max-pages",
+							Detail: fmt.Sprintf("Options{PageSize: %d, MaxSize: %d pages + %d bytes, InitMetaArea: %d}: the allocator counts with %d pages", ps, mp, extra, meta, sn.MaxPages),
+							Replay: map[string]interface{}{"page_size": ps, "max_pages": mp, "extra_bytes": extra, "init_meta_area": meta}})
 					case end > uint64(sn.MaxPages) || d.MaxExtent > int64(sn.MaxSize):
 						rep.violate(Violation{Kind: "oracle", Sig: "create/beyond-max-size",
 							Detail: fmt.Sprintf("Options{PageSize: %d, MaxSize: %d pages, InitMetaArea: %d} is accepted and creates a file whose end markers (data %d, meta %d) lie beyond its %d pages", ps, mp, meta, sn.DataEnd, sn.MetaEnd, sn.MaxPages),
@@ -329,21 +364,15 @@ func init() {
 		}
 		// K1: the per-transaction counters (data / meta / overflow pages allocated and freed, pages moved to the meta
 		// area) are part of the allocator state compared with the Coq model after every operation
-		if m, err := model.Start(); err == nil {
-			k := 150
-			if f.tier == "thorough" {
-				k = 4000
-			}
-			for i := 0; i < k; i++ {
-				allocScript(rep, m, r)
-				rep.count("alloc:scripts", 1)
-			}
-			rep.ModelCalls = m.N
-			m.Close()
-		} else {
-			fmt.Fprintln(os.Stderr, err)
-			return 2
+		k := 150
+		if f.tier == "thorough" {
+			k = 4000
 		}
+		for i := 0; i < k; i++ {
+			allocScript(rep, m, r)
+			rep.count("alloc:scripts", 1)
+		}
+		rep.ModelCalls = m.N
 		return rep.finish(f)
 	})
 }
